@@ -30,6 +30,7 @@ type Event struct {
 	Args []Value
 	Rets []Value
 	Seqs map[int]*SeqV // snapshot of []byte arguments at event time
+	Snaps map[int]*SliceSnap // snapshot of slice arguments (any element type) at event time
 	Heap map[string]*Term
 }
 
